@@ -155,6 +155,8 @@ func c30(c *core.Ctx) {
 	rLI := c.Rule("C30.lazyinit", "the expiry index (like every lazily built index) is never marked initialized by a side effect before it was built: each initializing beacon call on an index field follows buildBeacon of that field or is guarded by IsInitialized() on it (shared with C07.lazyinit) - otherwise index-based expiry reads and claims miss the records that existed before", 20)
 	lazyInitRule(c, rLI)
 
+	rWin := c.Rule("C30.window", "an expiry-ordered read sees the same expiry values as the expired-shift: findTimeRangeBounds realises the half-open window [from,to) on both directions and leaves a side open when its bound is absent, so a record whose expiry lies before 1970 (non-zero, in the past: expired) is not dropped from a read that gives only an upper bound (shared with C07.window)", 4)
+	windowRule(c, rWin)
 	rP := c.Rule("C30.predicate", "an 'is expired' decision is true exactly when expiry != 0 and expiry < now (5 abstract order cases per site, pre-epoch included)", 20)
 	// (a) treasure.IsExpired: simulate the function
 	{
